@@ -5,6 +5,7 @@ import (
 	"github.com/drand/drand/v2/zzverif/cli"
 	"github.com/drand/drand/v2/zzverif/engcache"
 	"github.com/drand/drand/v2/zzverif/engcbstore"
+	"github.com/drand/drand/v2/zzverif/engstream"
 	"github.com/drand/drand/v2/zzverif/engtime"
 	"github.com/drand/drand/v2/zzverif/extract"
 )
@@ -15,5 +16,6 @@ func main() {
 		"time":    engtime.Run,
 		"cache":   engcache.Run,
 		"cbstore": engcbstore.Run,
+		"stream":  engstream.Run,
 	})
 }
